@@ -45,13 +45,15 @@ func init() { register("C08", checkC08) }
 
 func checkC08(c *vh.Ctx) {
 	c.Res.Rule = "kernel: generated states of hermes.Evatra (1-20 layers, five ET methods, crop / four kinds of bare soil, radiation or sunshine hours, latitudes incl. poles, LAI 0-8, roots 0-N, groundwater above / at / below the root depth, dry and wet profiles); non-trivial = distinct generated state. whole runs: see extra"
-	if replayKernelCase(c) {
+	if replayPetCase(c) || replayKernelCase(c) {
 		return
 	}
 	if _, _, ok := etReplay(); ok {
 		etWholeRuns(c, 1, true, false)
+		petRunStage(c, 1, 400)
 		return
 	}
 	evatraKernelStage(c, c.N(6000, 80000))
+	petStage(c) // c08_pet.go: the five potential-ET methods, stomat, day length; composition evatra.full
 	etWholeRuns(c, c.N(60, 600), true, false)
 }
